@@ -515,7 +515,23 @@ def _may_change_self(x) -> bool:
     return False
 
 
-def inline_new_locals(fn, ref_names, limit: int = 8) -> int:
+def constant_attrs(tree) -> set:
+    """Attribute names that no function of the module stores to, except constructors and the
+    class-table builders: `self.<such attr>` denotes the same object during a whole call,
+    whatever is called in between."""
+    stored = set()
+    every = set()
+    for fn in [x for x in ast.walk(tree) if isinstance(x, (ast.FunctionDef, ast.AsyncFunctionDef))]:
+        ctor = fn.name in ('__init__', '__init_subclass__', '_build_tables', '__new__')
+        for x in ast.walk(fn):
+            if isinstance(x, ast.Attribute):
+                every.add(x.attr)
+                if isinstance(x.ctx, (ast.Store, ast.Del)) and not ctor:
+                    stored.add(x.attr)
+    return every - stored
+
+
+def inline_new_locals(fn, ref_names, limit: int = 8, const_attrs=frozenset()) -> int:
     ref_names = set(ref_names)
     changed = 0
     progress = True
@@ -587,6 +603,12 @@ def inline_new_locals(fn, ref_names, limit: int = 8) -> int:
                                                      ast.BinOp, ast.operator, ast.IfExp, ast.Attribute))
                                       and _stable_leaf(z) for z in ast.walk(st.value))
                     relaxed = stable_attr or locals_only or stable_expr
+                    # every attribute in E is one that is only ever assigned by constructors:
+                    # then not even a method call on self can change what E denotes
+                    immutable = relaxed and all(
+                        (not isinstance(z, ast.Attribute)) or z.attr in const_attrs
+                        for z in ast.walk(st.value)) and not any(
+                        isinstance(z, (ast.Call, ast.Subscript)) for z in ast.walk(st.value))
                     for x in _effect_nodes_between(rest):
                         if any(x is l for l in loads):
                             seen += 1
@@ -595,7 +617,7 @@ def inline_new_locals(fn, ref_names, limit: int = 8) -> int:
                             continue
                         if _is_barrier(x, expr_names) and not (
                                 relaxed and not (isinstance(x, ast.Name) and x.id in expr_names)
-                                and not (not locals_only and _may_change_self(x))):
+                                and not (not locals_only and not immutable and _may_change_self(x))):
                             ok = False
                             break
                     if not ok:
@@ -609,7 +631,7 @@ def inline_new_locals(fn, ref_names, limit: int = 8) -> int:
                             if any(any(n is l for n in in_body) for l in loads) and \
                                     any(_is_barrier(z, expr_names) and not (
                                         relaxed and not (isinstance(z, ast.Name) and z.id in expr_names)
-                                        and not (not locals_only and _may_change_self(z)))
+                                        and not (not locals_only and not immutable and _may_change_self(z)))
                                         for z in ast.walk(lp)):
                                 ok = False
                     if not ok:
